@@ -274,6 +274,12 @@ def main():
   if not args.no_evidence and not args.only and \
       not os.environ.get("VERIF_REPO"):
     evidence_mod.write(prop, agg)
+  try:
+    os.makedirs(os.path.join(ROOT, "scratch"), exist_ok=True)
+    with open(os.path.join(ROOT, "scratch", "last_%s.json" % prop), "w") as f:
+      json.dump(agg, f, indent=1, default=str)
+  except OSError:
+    pass
   c = agg["coverage"]
   print("[%s] states=%d transitions=%d evaluations=%d distinct_nontrivial=%d "
         "outcomes=%s exhaustive=%s inconclusive=%d wall=%.1fs" %
